@@ -191,7 +191,10 @@ def first_divergence(v, d, cfg, binary, scripts, trace_path, ninst=1, invs=()):
     """validate the concatenated executions; on rejection isolate the failing execution and re-validate it alone.
        returns None if accepted, else dict(script, trace_lines, last_matched, exec_index)"""
     lines = [l for ex in scripts for l in ex]
-    rc, err = run_driver(binary, lines, trace_path)
+    try:
+        rc, err = run_driver(binary, lines, trace_path)
+    except subprocess.TimeoutExpired:
+        return nonterminating(v, d, cfg, binary, scripts, trace_path, ninst, invs)
     if rc != 0:
         raise ToolError("driver %s exited with %d: %s" % (binary, rc, err[-500:]))
     st = v.validate(d, cfg, trace_path, ninst, invs=invs)
@@ -212,6 +215,30 @@ def first_divergence(v, d, cfg, binary, scripts, trace_path, ninst=1, invs=()):
     return {"exec_index": idx, "script": scripts[idx], "trace": tl, "last_matched": st1["maxl"] - 1, "prop_line": st1.get("pviol", 0),
             "kind": kind, "repeats": not st1["accepted"], "nl": st1["nl"]}, st
 
+
+def nonterminating(v, d, cfg, binary, scripts, trace_path, ninst, invs):
+    """the driver did not finish: find the execution that hangs and let the specification judge the prefix of its trace.
+       The model rejects the prefix -> the implementation left the specification before it started to loop (a divergence like any other);
+       the model follows every line -> the machine definition itself loops for ever: a tool error, not a verdict."""
+    for idx, sc in enumerate(scripts):
+        single = trace_path + ".single"
+        try:
+            run_driver(binary, sc, single, timeout=10)
+            continue
+        except subprocess.TimeoutExpired:
+            pass
+        tl = []
+        with open(single, errors="replace") as f:
+            for ln in f:
+                if not ln.endswith("\n") or len(tl) >= 3000: break
+                tl.append(ln.rstrip("\n"))
+        open(single, "w").write("\n".join(tl) + "\n")
+        st1 = v.validate(d, cfg, single, ninst, invs=invs)
+        if st1["maxl"] == st1["nl"] + 1:
+            raise ToolError("neither the implementation nor the model terminates on this script (the machine definition loops): %s" % json.dumps(sc))
+        return {"exec_index": idx, "script": sc, "trace": tl, "last_matched": st1["maxl"] - 1, "prop_line": st1.get("pviol", 0),
+                "kind": "rejected", "repeats": True, "nl": st1["nl"], "nonterminating": True}, st1
+    raise ToolError("driver %s timed out on the concatenated script but on no single execution" % binary)
 
 # ---------------------------------------------------------------- TLC-generated suites (shortest input script per reachable quiescent state)
 def path_to_script(path):
